@@ -37,12 +37,12 @@ From CfdmV Require Import Common.Base.
 Open Scope Z_scope.
 
 (* ---------------------------------------------------------------- kinds *)
-Inductive kind := KDim | KAux | KAnc | KMeas | KFAnc | KBnd | KGm.
+Inductive kind := KDim | KAux | KAnc | KMeas | KFAnc | KBnd | KGm | KList | KCount | KIndex.
 
 Definition kind_eqb (a b : kind) : bool :=
   match a, b with
   | KDim, KDim | KAux, KAux | KAnc, KAnc | KMeas, KMeas | KFAnc, KFAnc
-  | KBnd, KBnd | KGm, KGm => true
+  | KBnd, KBnd | KGm, KGm | KList, KList | KCount, KCount | KIndex, KIndex => true
   | _, _ => false
   end.
 
@@ -162,14 +162,26 @@ Definition write_generic (ign : bool) (c : comp) (nd : list dimid) (st : wst) : 
   | None => let '(st1, v) := new_var c nd st in (write_bounds v c nd st1, v)
   end.
 
-(* _write_dimension_coordinate: returns the variable and the dimension *)
-Definition write_dimcoord (c : comp) (st : wst) : wst * nat * dimid :=
+Definition dim_used (d : dimid) (used : list dimid) : bool := existsb (dimid_eqb d) used.
+
+(* _write_dimension_coordinate: returns the variable and the dimension.
+   [used] = the netCDF dimensions of the axes of this field written so far:
+   with fx (commit a6b4a67 of /repo, same rule as C09-fix-2 for dimensions
+   without coordinate variable) an equal coordinate variable already in the
+   file is not reused when its dimension belongs to another axis of this
+   field; a new coordinate variable and dimension are created instead. *)
+Definition create_dimcoord (c : comp) (st : wst) : wst * nat * dimid :=
+  let v := length (vt st) in
+  let '(st1, _) := new_var c [DCoord v] st in
+  (write_bounds v c [DCoord v] st1, v, DCoord v).
+
+Definition write_dimcoord (fx : bool) (c : comp) (used : list dimid) (st : wst) : wst * nat * dimid :=
   match lookup false c None (seen st) with
-  | Some e => (add_seen (mkS c (se_v e) (se_nd e)) st, se_v e, hd (DFree 0) (se_nd e))
-  | None =>
-      let v := length (vt st) in
-      let '(st1, _) := new_var c [DCoord v] st in
-      (write_bounds v c [DCoord v] st1, v, DCoord v)
+  | Some e =>
+      let d := hd (DFree 0) (se_nd e) in
+      if fx && dim_used d used then create_dimcoord c st
+      else (add_seen (mkS c (se_v e) (se_nd e)) st, se_v e, d)
+  | None => create_dimcoord c st
   end.
 
 (* ---------------------------------------- axes without dimension coordinate *)
@@ -191,8 +203,6 @@ Definition spanning (f : field) (a : nat) : list (comp * nat) :=
 
 Definition matched (s0 s1 : list (comp * nat)) : bool :=
   existsb (fun x => existsb (fun y => Nat.eqb (snd x) (snd y) && eq_comp false (fst x) (fst y)) s1) s0.
-
-Definition dim_used (d : dimid) (used : list dimid) : bool := existsb (dimid_eqb d) used.
 
 (* the loop over g['ncdim_size_to_spanning_constructs'] *)
 Definition reuse_free (fx : bool) (size : Z) (sp : list (comp * nat)) (used : list dimid)
@@ -223,7 +233,7 @@ Fixpoint write_axes (fx : bool) (f : field) (dcs : list (option citem)) (a : nat
   match dcs with
   | [] => (st, used, dv, loc)
   | Some it :: r =>
-      let '(st1, v, d) := write_dimcoord (dimcomp f a it) st in
+      let '(st1, v, d) := write_dimcoord fx (dimcomp f a it) used st in
       write_axes fx f r (S a) st1 (used ++ [d]) (dv ++ [Some v]) loc
   | None :: r =>
       let sp := spanning f a in
@@ -536,3 +546,65 @@ Definition ft_conflict (fx : bool) (fs : list field) : bool :=
   let all := concat (map (fun p => owner_terms (fst p) (snd p)) (combine os fs)) in
   existsb (fun x => existsb (fun y => Nat.eqb (fst x) (fst y) &&
                                       negb (option_eqb (list_eqb Nat.eqb) (snd x) (snd y))) all) all.
+
+(* ================================================================ compression variables *)
+(* A field may be stored compressed: by gathering (a list variable, whose
+   compress attribute names the netCDF dimensions of the compressed axes), as a
+   contiguous ragged array (a count variable spanning the instance dimension)
+   or as an indexed ragged array (an index variable whose instance_dimension
+   attribute names the instance dimension).  The writer reuses an equal list /
+   count / index variable of an earlier field (_write_list_variable,
+   _write_count_variable, _write_index_variable).  What such a variable MEANS
+   is the list of netCDF dimensions it refers to; in the model the nd column
+   of a compression variable holds exactly that list (for a count variable it
+   is its real dimension, for a list / index variable the dimensions named by
+   its compress / instance_dimension attribute, their own dimension being
+   private to them).
+
+     lx = true  : an equal variable is reused only when it refers to the same
+                  dimensions   (handoff/C09-fix3-1,2,3.diff)
+     lx = false : the code before: any equal variable is reused. *)
+Inductive cspec :=
+| CGath (t : Z) (p n : nat)     (* list variable token; the n data axes from position p are gathered *)
+| CCont (t : Z)                 (* count variable token; axis 0 = instances *)
+| CIdx (t : Z).                 (* index variable token; axis 0 = instances *)
+
+Record cfield := mkCF { cf_f : field; cf_c : option cspec }.
+
+Definition ccomp (cs : cspec) : comp :=
+  match cs with
+  | CGath t _ _ => mkC KList t [] None
+  | CCont t => mkC KCount t [] None
+  | CIdx t => mkC KIndex t [] None
+  end.
+
+Definition meaning (cs : cspec) (dims : list dimid) : list dimid :=
+  match cs with
+  | CGath _ p n => firstn n (skipn p dims)
+  | CCont _ | CIdx _ => firstn 1 dims
+  end.
+
+Definition write_cvar (lx : bool) (c : comp) (m : list dimid) (st : wst) : wst * nat :=
+  match lookup false c (if lx then Some m else None) (seen st) with
+  | Some e => (add_seen (mkS c (se_v e) (se_nd e)) st, se_v e)
+  | None => new_var c m st
+  end.
+
+Definition write_cfield (lx : bool) (cf : cfield) (st : wst) : wst * (fout * option nat) :=
+  let '(st1, o) := write_field true (cf_f cf) st in
+  match cf_c cf with
+  | None => (st1, (o, None))
+  | Some cs => let '(st2, v) := write_cvar lx (ccomp cs) (meaning cs (o_dims o)) st1 in (st2, (o, Some v))
+  end.
+
+Fixpoint write_cfields (lx : bool) (cfs : list cfield) (st : wst) : wst * list (fout * option nat) :=
+  match cfs with
+  | [] => (st, [])
+  | cf :: r =>
+      let '(st1, o) := write_cfield lx cf st in
+      let '(st2, os) := write_cfields lx r st1 in
+      (st2, o :: os)
+  end.
+
+(* the dimensions a compression variable of the file refers to *)
+Definition cvar_meaning (st : wst) (v : nat) : list dimid := vnd st v.
